@@ -72,6 +72,30 @@ def generate(repo):
     else:
         raise TranslateError("DeckOutput.cpp: end_record() has a shape the writer model does not know: " + body[:200])
 
+    # code keywords: every keyword definition under share/keywords with a "code": {"end": ...} entry
+    import json, glob
+    code_kws, code_sources = [], []
+    kwroot = os.path.join(repo, "opm/input/eclipse/share/keywords")
+    for fn in sorted(glob.glob(os.path.join(kwroot, "*", "*", "*"))):
+        try:
+            txt = open(fn).read()
+        except (IsADirectoryError, UnicodeDecodeError):
+            continue
+        if '"code"' not in txt:
+            continue
+        try:
+            js = json.loads(txt)
+        except ValueError:
+            raise TranslateError(f"{fn}: keyword definition with a code entry is not valid JSON")
+        if "code" in js:
+            end = js["code"].get("end")
+            if not isinstance(end, str):
+                raise TranslateError(f"{fn}: code keyword without an end string")
+            code_kws.append((js["name"], end))
+            code_sources.append(fn)
+    if not code_kws:
+        raise TranslateError("no code keyword found under share/keywords (PYINPUT, DYNAMICR expected)")
+
     def blist(t):
         return "[" + ", ".join("true" if b else "false" for b in t) + "]"
 
@@ -88,5 +112,9 @@ def generate(repo):
            f"def outKeywordSep : List UInt8 := {bytes_of(keyword_sep)}",
            f"def outColumns : Nat := {columns}",
            f"def outFlushPendingDefaults : Bool := {'true' if flush else 'false'}",
+           "",
+           "/-- (keyword, end string) of every code keyword defined under share/keywords -/",
+           "def codeKeywords : List (List UInt8 × List UInt8) := [" +
+           ", ".join(f"({bytes_of(a)}, {bytes_of(b)})" for a, b in code_kws) + "]",
            "", "end OpmVerif.Gen.RawConsts", ""]
-    return {"module": "OpmVerif.Gen.RawConsts", "file": "RawConsts.lean", "text": "\n".join(out), "sources": [path, opath, cpath]}
+    return {"module": "OpmVerif.Gen.RawConsts", "file": "RawConsts.lean", "text": "\n".join(out), "sources": [path, opath, cpath] + code_sources}
